@@ -444,6 +444,7 @@ type c18RMCall struct {
 	In   int  `json:"in,omitempty"`
 	Fail bool `json:"fail,omitempty"`
 	Boom bool `json:"boom,omitempty"` // create panics (recovered by the client goroutine)
+	Half bool `json:"half,omitempty"` // with Fail: create returns a half-built closer together with the error (dial ok, ping failed)
 	Set  bool `json:"set,omitempty"`  // instead of Get: Set a fresh resource under a key of its own (concurrent with everybody else)
 }
 
@@ -459,6 +460,7 @@ type c18Closer struct {
 	key    int
 	closed int32
 	fail   bool
+	failed bool // handed to the manager TOGETHER with an error: the create failed
 }
 
 func (c *c18Closer) Close() error {
@@ -486,7 +488,8 @@ func c18GenRM(r interface{ Intn(int) int }) c18RMScn {
 			if r.Intn(3) == 0 {
 				in = 8 + r.Intn(3)
 			}
-			rc := c18RMCall{K: r.Intn(sc.Keys), Pre: c18RandDelay(r), In: in, Fail: r.Intn(8) == 0}
+			rc := c18RMCall{K: r.Intn(sc.Keys), Pre: c18RandDelay(r), In: in, Fail: r.Intn(6) == 0}
+			rc.Half = rc.Fail && r.Intn(2) == 0
 			if booms && r.Intn(8) == 0 {
 				rc.Boom, rc.Fail = true, false
 			}
@@ -510,6 +513,7 @@ func c18RunRM(m *vk.M, idx int, sc c18RMScn) bool {
 	var (
 		mu      sync.Mutex
 		created []*c18Closer // successful creates
+		halves  []*c18Closer // closers returned together with an error (failed creates)
 		ncreate int64        // create callbacks entered
 		npanic  int64        // Get calls that panicked (own create, or sharing a panicked flight)
 		nset    int64        // concurrent Set calls
@@ -565,6 +569,13 @@ func c18RunRM(m *vk.M, idx int, sc c18RMScn) bool {
 							panic(c18Panic{id})
 						}
 						if c.Fail {
+							if c.Half {
+								half := &c18Closer{id: id, key: c.K, failed: true}
+								mu.Lock()
+								halves = append(halves, half)
+								mu.Unlock()
+								return half, c18Err{id}
+							}
 							return nil, c18Err{id}
 						}
 						cl := &c18Closer{id: id, key: c.K, fail: id%5 == 0}
@@ -626,6 +637,10 @@ func c18RunRM(m *vk.M, idx int, sc c18RMScn) bool {
 				fail("foreign-resource", "client %d call %d (key k%d): Get returned a value that no create callback produced", g.client, g.idx, g.key)
 				continue
 			}
+			if g.res.failed {
+				fail("failed-create-handed-out", "client %d call %d (key k%d): Get succeeded with resource #%d, which its create function had returned together with an error (that Get reported the failure): a failed create must leave nothing registered under the key", g.client, g.idx, g.key, g.res.id)
+				continue
+			}
 			if g.res.key != g.key {
 				fail("foreign-resource", "client %d call %d (key k%d): Get returned resource #%d created for key k%d", g.client, g.idx, g.key, g.res.id, g.res.key)
 				continue
@@ -654,6 +669,7 @@ func c18RunRM(m *vk.M, idx int, sc c18RMScn) bool {
 	m.Count("resourcemanager_gets", int64(ngets))
 	m.Count("resourcemanager_get_errors", int64(nerr))
 	m.Count("resourcemanager_concurrent_sets", atomic.LoadInt64(&nset))
+	m.Count("resourcemanager_creates_returning_value_and_error", int64(len(halves)))
 	m.Count("resourcemanager_gets_panicked_and_recovered", atomic.LoadInt64(&npanic))
 	m.Count("resourcemanager_create_callbacks", atomic.LoadInt64(&ncreate))
 	m.Count("resourcemanager_resources_closed", int64(len(created)+len(sets)))
